@@ -73,7 +73,7 @@ CHECKS = {
    "Decides C10 on byte strings reachable by canonical faults from honest keys, not on all of B^SK_LEN; trusts the layout model (validated: it accepts every honest key).",
    "deterministic simulation: storage fault enumeration vs reference layout model", "DESIGN.md 4.3"),
  "C14": chk("C14", "exploration",
-   "The one nondeterminism source the statement quantifies over - the values returned by the RNG device - is owned by the simulator; the oracle is the simulator's own determinism check turned on the library: the recorded event history (every control-flow edge and every load/store address, from compiler-inserted probes) of dudect_keygen_sign_with_rng must be identical for every seeded RNG output, and likewise for each secret-handling kernel driven alone through the verif-hooks wrappers on seeded in-range vectors. Exact trace comparison, not timing; optimisation levels 3 (quick) and 3/s/1 (thorough); additionally traced builds with a single parameter set (code cfg'd on the feature set).",
+   "The one nondeterminism source the statement quantifies over - the values returned by the RNG device - is owned by the simulator; the oracle is the simulator's own determinism check turned on the library: the recorded event history (every control-flow edge and every load/store address, from compiler-inserted probes) of dudect_keygen_sign_with_rng must be identical for every seeded RNG output, and likewise for each secret-handling kernel driven alone through the verif-hooks wrappers on seeded in-range vectors. Exact trace comparison, not timing; optimisation levels 3 (quick) and 3/s/1 (thorough); additionally traced builds with a single parameter set (code cfg'd on the feature set); and a machine-level flavour: an uninstrumented build with the repository's own release profile traced instruction by instruction and access by access under valgrind lackey, window hashes compared across RNG outputs (found and fixed a genuine defect: decompose compiled to a conditional branch at opt-level s, /repo a916772).",
    "Observation level is LLVM IR after optimisation (SanitizerCoverage), so back-end if-conversion choices and microarchitecture are not observed; inputs are sampled (seeded), not enumerated. Needs the add-only feature verif-hooks for the kernel-alone windows.",
    "deterministic simulation: RNG-value exploration with event-history (edge + address trace) equality oracle", "DESIGN.md 4.5"),
  "C17": chk("C17", "exploration",
@@ -112,7 +112,7 @@ def main():
         ],
         "checks": [CHECKS[p] for p in claimed],
         "not_applicable": [{"property_id": k, "reason": v} for k, v in sorted(NA.items())],
-        "notes": "Technique family: deterministic simulation with fault injection. See DESIGN.md section 2 for the applicability rule; known_findings.json for findings (C10 defect fixed in /repo 81575a5, C13 defect fixed in /repo 472da62).",
+        "notes": "Technique family: deterministic simulation with fault injection. See DESIGN.md section 2 for the applicability rule; known_findings.json for findings (C10 defect fixed in /repo 81575a5, C13 defect fixed in /repo 472da62, C14 machine-level defect fixed in /repo a916772).",
     }
     json.dump(man, open("/verif/MANIFEST.json", "w"), indent=1)
     print("claimed:", claimed, "n/a:", sorted(NA))
